@@ -19,7 +19,7 @@ ENCODES = ["pycel.excelformula:ExcelFormula.build_eval_context", "pycel.excelcom
            "pycel.excelcompiler:ExcelCompiler._evaluate_range", "pycel.excelcompiler:ExcelCompiler._process_gen_graph",
            "pycel.excelcompiler:ExcelCompiler.set_value", "pycel.excelcompiler:_CycleCell",
            "pycel.excelutil:_ArrayFormulaContext", "pycel.excelcompiler:ExcelCompiler.eval"]
-BOUNDS = ["failing site: leaf formula, mid-chain, member of a summed range, member of a CSE array, unknown function, formula with a captured #DIV/0!; plain mode, and iterative mode for the sites that read no range",
+BOUNDS = ["failing site: leaf formula, mid-chain, member of a summed range, member of a CSE array, unknown function, formula with a captured #DIV/0!, a cell inside a circular reference; plain mode, and iterative mode for the sites that read no range",
           "failure condition: argument above a symbolic threshold, or the k-th call (k symbolic 1..3); raised exception ValueError / NameError (quick) + ZeroDivisionError / KeyError (thorough)",
           "follow-ups: retry the failing cell, evaluate a dependant, evaluate an unrelated cell, overwrite the failing cell with a symbolic constant and evaluate everything",
           "values ints |v|<=99"]
@@ -31,11 +31,12 @@ T.setdefault("f_mid", {"A1": 1000, "A2": 4, "B1": "=A1*2", "C1": "=VFAIL(B1)+A2"
 T.setdefault("f_range", {"A1": 1000, "A2": 4, "B1": "=VFAIL(A1)", "B2": "=A2+1", "C1": "=SUM(B1:B2)", "D1": "=B2*2"})
 T.setdefault("f_cse", {"A1": 1000, "A2": 4, "B1": ("cse", "B1:B2", "=VFAIL(A1:A2)*2"), "C1": "=B1+B2", "D1": "=A2+1"})
 T.setdefault("f_unknown", {"A1": 1000, "A2": 4, "B1": "=NOSUCHFUNCTION(A1)", "C1": "=B1+1", "D1": "=A2*2"})
+T.setdefault("f_cycle", {"A1": 1000, "A2": 4, "B1": "=A1+VFAIL(B2)/2", "B2": "=B1/2", "C1": "=B1+1", "D1": "=A2*2"})
 T.setdefault("f_captured", {"A1": 1000, "A2": 4, "B1": "=IFERROR(A2/0,0)+VFAIL(A1)", "C1": "=B1+1", "D1": "=A2*2"})
 
-FAIL_CELL = {"f_leaf": "B1", "f_mid": "C1", "f_range": "B1", "f_cse": "B1", "f_unknown": "B1", "f_captured": "B1"}
-DEPENDANT = {"f_leaf": "E1", "f_mid": "D1", "f_range": "C1", "f_cse": "C1", "f_unknown": "C1", "f_captured": "C1"}
-UNRELATED = {"f_leaf": "D1", "f_mid": "E1", "f_range": "D1", "f_cse": "D1", "f_unknown": "D1", "f_captured": "D1"}
+FAIL_CELL = {"f_cycle": "B1", "f_leaf": "B1", "f_mid": "C1", "f_range": "B1", "f_cse": "B1", "f_unknown": "B1", "f_captured": "B1"}
+DEPENDANT = {"f_cycle": "C1", "f_leaf": "E1", "f_mid": "D1", "f_range": "C1", "f_cse": "C1", "f_unknown": "C1", "f_captured": "C1"}
+UNRELATED = {"f_cycle": "D1", "f_leaf": "D1", "f_mid": "E1", "f_range": "D1", "f_cse": "D1", "f_unknown": "D1", "f_captured": "D1"}
 EXCS = (ValueError, NameError, ZeroDivisionError, KeyError)
 
 
@@ -122,6 +123,36 @@ def ob_fail(tname, cycles, ei, repair_iter, v: int, t: int, c: int) -> Optional[
     return True
 
 
+def ob_fail_cycle(ei, v: int, t: int) -> Optional[bool]:
+    """a failure inside a circular reference (iterative mode): the cycle cell and its dependant raise pycel's own error on every
+    retry, an unrelated cell is correct, and when the input no longer triggers the failure the cycle converges again"""
+    if not (-99 <= v <= 99 and 0 <= t <= 99):
+        return None
+    m = _build("f_cycle", True)
+    _warm(m, "f_cycle")
+    vfplugin.reset(threshold=t, exc=EXCS[ei])
+    a1, b1, c1, d1 = wb.addr("A1"), wb.addr("B1"), wb.addr("C1"), wb.addr("D1")
+    m.set_value(a1, 4 * t + 400)          # B2 climbs to (4t+400)/3 > t within the passes: VFAIL raises
+    first = _try(m, c1)
+    if first[0] != "pycel":
+        return False
+    for a in (b1, c1):
+        if _try(m, a)[0] != "pycel":
+            return False
+    u = _try(m, d1)
+    if u[0] != "ok" or not _eq(u[1], 8):
+        return False
+    vfplugin.reset()                      # failure condition gone
+    m.set_value(a1, v)
+    r = _try(m, b1)
+    if r[0] != "ok":
+        return False
+    # fixed point of B1 = v + B1/4 is 4v/3: after the configured passes within 2 x tolerance-scale of it
+    x = r[1]
+    err = x * 3 - 4 * v
+    return -40 <= err <= 40          # 5 passes contract the old value (<= 1400) by 4^-5
+
+
 def ob_fail_kth(tname, cycles, k: int, v: int, c: int) -> Optional[bool]:
     """the plugin fails on its k-th call (k symbolic): whichever evaluation that hits raises pycel's own error, earlier and
     later evaluations return correct values"""
@@ -161,6 +192,10 @@ def obligations(tier):
             if cycles and t == "f_leaf":
                 obs.append(Obligation(PROP, f"fail_repair_iter[{t}]", __name__, "ob_fail", (t, True, 0, True), timeout=120,
                                       float_mode="real", group=t, known="C09-iter-overwrite"))
+            if t == "f_leaf" and cycles:
+                for ei in (0, 1):
+                    obs.append(Obligation(PROP, f"fail_cycle[{EXCS[ei].__name__}]", __name__, "ob_fail_cycle", (ei,), timeout=300,
+                                          float_mode="real", group="f_cycle"))
             if t in ("f_leaf", "f_mid", "f_range"):
                 obs.append(Obligation(PROP, f"fail_kth[{t},{'iter' if cycles else 'plain'}]", __name__, "ob_fail_kth",
                                       (t, cycles), timeout=300, float_mode="real", group=t))
